@@ -446,6 +446,42 @@ pub fn search(tier: &str, seed: u64, s: &mut Search) {
             s.finding("oracle:viewport:symbol-default-size", &format!("a use without width/height differs from the same use with 100% written out ({}x{}): {}", gw.unwrap_or(rw), gh.unwrap_or(rh), why), &a);
         }
     }
+    // ---- viewport attributes spread over an xlink:href chain of patterns: each attribute is inherited on its
+    // own, so the chain equals one pattern that carries them all
+    for _ in 0..n / 3 {
+        let (vw, vh) = (rng.range(4, 30), rng.range(4, 30));
+        let (tw, th) = (rng.range(20, 90), rng.range(20, 90));
+        let al = ALIGNS[rng.below(10) as usize];
+        let par = if al == "none" { "none".to_string() } else { format!("{} {}", al, if rng.chance(1, 2) { "slice" } else { "meet" }) };
+        let content = format!(r##"<rect x="-5" y="-5" width="{}" height="{}" fill="#0a0"/><circle cx="0" cy="0" r="{}" fill="#f00"/>"##, vw, vh, (vw.min(vh) / 3).max(1));
+        let vb = format!(r#"viewBox="-5 -5 {vw} {vh}""#);
+        let pa = format!(r#"preserveAspectRatio="{par}""#);
+        let size = format!(r#"width="{tw}" height="{th}" patternUnits="userSpaceOnUse""#);
+        // where each attribute sits: 0 = base, 1 = middle, 2 = referencing pattern
+        let place = [rng.below(3), rng.below(3), rng.below(3), rng.below(3)];
+        let at = |k: u64| -> String {
+            let mut a = String::new();
+            if place[0] == k { a += &format!(" {vb}"); }
+            if place[1] == k { a += &format!(" {pa}"); }
+            if place[2] == k { a += &format!(" {size}"); }
+            a
+        };
+        let kids = |k: u64| if place[3] == k { content.clone() } else { String::new() };
+        let chain = format!(
+            r##"<pattern id="p0"{}>{}</pattern><pattern id="p1" xlink:href="#p0"{}>{}</pattern><pattern id="p" xlink:href="#p1"{}>{}</pattern>"##,
+            at(0), kids(0), at(1), kids(1), at(2), kids(2)
+        );
+        let flat = format!(r##"<pattern id="p" {vb} {pa} {size}>{content}</pattern>"##);
+        let doc = |defs: &str| format!(r##"<svg xmlns="http://www.w3.org/2000/svg" xmlns:xlink="http://www.w3.org/1999/xlink" width="200" height="200"><defs>{defs}</defs><rect x="10" y="10" width="180" height="180" fill="url(#p)"/></svg>"##);
+        let (a, b) = (doc(&chain), doc(&flat));
+        let (Ok(ta), Ok(tb)) = (rend::parse(&a, &rend::base_opts()), rend::parse(&b, &rend::base_opts())) else { continue };
+        let (Some(pa_), Some(pb_)) = (rend::render(&ta, 200, 200, tiny_skia::Transform::identity()), rend::render(&tb, 200, 200, tiny_skia::Transform::identity())) else { continue };
+        s.case("pattern-href-chain", &a, pa_.data().chunks(4).any(|p| p[3] != 0));
+        let (ok, why) = rend::similar(&pa_, &pb_, 4);
+        if !ok {
+            s.finding("oracle:viewport:pattern-href-chain", &format!("viewBox / preserveAspectRatio / size / content spread over an href chain of patterns differ from one pattern that carries them all: {}", why), &a);
+        }
+    }
     // ---- an SVG used as an image is sized with the same options (DPI) as the document that embeds it
     for _ in 0..n / 3 {
         let dpi = *rng.pick(&[72.0f32, 300.0, 150.0, 96.0, 30.0]);
